@@ -73,6 +73,9 @@ pub struct IH {
     /// an unrelated cw20 token (C12 only): expansions naming it must not fund a flow
     pub foreign: Option<String>,
     pub root: IncRoot,
+    /// unit of the alphabet's position and flow amounts: 1, or 10^18 for roots labelled "@1e18-units"
+    /// (amounts of an 18-decimals asset: every position and flow exceeds 2^64 base units)
+    pub scale: u128,
 }
 
 #[derive(Clone, Debug, Hash, PartialEq, Eq, PartialOrd, Ord)]
@@ -121,7 +124,16 @@ pub enum IAct {
     ExpandFlow { id: u64, amount: u64, funds: String, by: String },
     CloseFlow { id: u64, by: String },
     /// OpenFlow whose start epoch lies `back` epochs in the past (allowed by the contract)
-    OpenFlowPast { creator: String, amount: u64, back: u64, end_delta: u64 },
+    /// (or, with `ahead`, that many epochs in the future: an expansion before the flow has started is then recorded
+    /// under an epoch earlier than the flow's start)
+    OpenFlowPast {
+        creator: String,
+        amount: u64,
+        back: u64,
+        end_delta: u64,
+        #[serde(default)]
+        ahead: u64,
+    },
     /// every user holding an open position claims, in user order
     ClaimAll,
     /// next epoch, its snapshot, then every staker claims
@@ -132,7 +144,46 @@ pub fn inc_exec(w: &mut World, h: &IH, sender: &str, msg: &IncExec, funds: &[Coi
     w.exec(sender, &h.incentive, msg, funds)
 }
 
+/// the flows as the contract stores them (FLOWS map, ordered by (start epoch, id)). The ledger oracles read the stored
+/// record: the Flow/Flows queries answer with a *window* of a flow's history (at most 100 epochs from its start, or from the
+/// epoch the caller names), so an expansion recorded before a future-dated flow starts, or more than 100 epochs after it
+/// started, is legitimately absent from their answer although the contract accounts for it.
 pub fn flows_of(w: &World, h: &IH) -> Vec<Flow> {
+    // the query names the flows (id and start epoch are never filtered); each stored record is then read by its exact key
+    // FLOWS[(start_epoch, flow_id)]. A flow the query does not list would be missed here, so the listing itself is checked
+    // against a full storage scan in the invariant `flows_query.lists_the_stored_flows`.
+    // (asked for a window far in the future, so that the answer carries no history and stays small)
+    let names: Result<Vec<Flow>, String> = w.query(&h.incentive, &IncQuery::Flows { start_epoch: Some(1u64 << 62), end_epoch: None });
+    names
+        .expect("Flows query")
+        .into_iter()
+        .map(|f| {
+            let mut k: Vec<u8> = vec![0, 5];
+            k.extend_from_slice(b"flows");
+            k.extend_from_slice(&[0, 8]);
+            k.extend_from_slice(&f.start_epoch.to_be_bytes());
+            k.extend_from_slice(&f.flow_id.to_be_bytes());
+            match w.raw(&h.incentive, &k) {
+                Some(v) => serde_json::from_slice::<Flow>(&v).expect("stored flow"),
+                None => f,
+            }
+        })
+        .collect()
+}
+
+/// every stored flow, by a scan of the contract's whole storage (slow: used by the invariant only)
+pub fn flows_scan(w: &World, h: &IH) -> Vec<Flow> {
+    let mut v: Vec<Flow> = vec![];
+    for (k, val) in w.dump(&h.incentive) {
+        if k.len() == 25 && k[0] == 0 && k[1] == 5 && &k[2..7] == b"flows" && k[7] == 0 && k[8] == 8 {
+            v.push(serde_json::from_slice::<Flow>(&val).expect("stored flow"));
+        }
+    }
+    v
+}
+
+/// what the Flows query (default window) answers
+pub fn flows_query(w: &World, h: &IH) -> Vec<Flow> {
     // (the contract answers with a bare Vec<Flow>, not the declared FlowsResponse)
     let r: Result<Vec<Flow>, String> = w.query(&h.incentive, &IncQuery::Flows { start_epoch: None, end_epoch: None });
     r.expect("Flows query")
@@ -297,7 +348,7 @@ impl IncScn {
         } else {
             None
         };
-        IH { collector, mockdist, ifactory, incentive, helper, pair, lp, reward, fee, foreign, root: r.clone() }
+        IH { collector, mockdist, ifactory, incentive, helper, pair, lp, reward, fee, foreign, root: r.clone(), scale: if r.label.contains("@1e18-units") { 10u128.pow(18) } else { 1 } }
     }
 
     /// C13, "no single claim pays a user more for an epoch than that epoch's emission": a claim sends one transfer per
@@ -516,6 +567,10 @@ impl Scenario for IncScn {
                 for k in ["less_than_stated", "more_than_stated", "zero"] {
                     v.push(IAct::BadOpen { user: us[0].clone(), kind: k.to_string() });
                 }
+                if matches!(h.lp, AssetInfo::Token { .. }) && !h.root.standing_allowance {
+                    // cw20 LP: a position "paid" with bank coins spelled like the LP token's contract address, no allowance
+                    v.push(IAct::BadOpen { user: us[0].clone(), kind: "addr_coin".to_string() });
+                }
                 if h.pair.is_some() {
                     v.push(IAct::Helper { user: us[0].clone(), dur: 0 });
                     v.push(IAct::Helper { user: us[1].clone(), dur: 2 });
@@ -535,7 +590,7 @@ impl Scenario for IncScn {
             "C12" if h.root.prefix == 5 => {
                 // long-history mode: composite rounds so that whole flow lifetimes are within the depth bound
                 if g.flows.len() < 3 {
-                    v.push(IAct::OpenFlowPast { creator: MALLORY.into(), amount: 10_000, back: 5, end_delta: 5 });
+                    v.push(IAct::OpenFlowPast { creator: MALLORY.into(), amount: 10_000, back: 5, end_delta: 5, ahead: 0 });
                     v.push(IAct::OpenFlow { creator: MALLORY.into(), amount: 10_000, funds: "exact".into(), end_delta: 4 });
                 }
                 v.push(IAct::ClaimAll);
@@ -560,6 +615,8 @@ impl Scenario for IncScn {
                             }
                         }
                         if ci == 1 {
+                            // a flow that only starts two epochs from now: expanding it before then is recorded ahead of its start
+                            v.push(IAct::OpenFlowPast { creator: c.clone(), amount: 3000, back: 0, end_delta: 6, ahead: 2 });
                             // a flow that ends with the next epoch, so that its last epoch is within reach
                             v.push(IAct::OpenFlow { creator: c.clone(), amount: 3000, funds: "exact".into(), end_delta: 1 });
                         }
@@ -626,8 +683,8 @@ impl Scenario for IncScn {
                 }
                 return;
             }
-            IAct::OpenFlowPast { creator, amount, back, end_delta } => {
-                let declared = *amount as u128;
+            IAct::OpenFlowPast { creator, amount, back, end_delta, ahead } => {
+                let declared = *amount as u128 * h.scale;
                 let same = h.fee == h.reward;
                 let mut coins: Vec<Coin> = vec![];
                 for (ai, amt) in [(&h.reward, declared), (&h.fee, if same { 0 } else { FLOW_FEE })] {
@@ -646,7 +703,7 @@ impl Scenario for IncScn {
                 }
                 coins.sort_by(|x, y| x.denom.cmp(&y.denom));
                 let ib = bal(w, &h.reward, &h.incentive);
-                let start = g.epoch.saturating_sub(*back).max(1);
+                let start = (g.epoch.saturating_sub(*back) + *ahead).max(1);
                 let r = inc_exec(
                     w,
                     h,
@@ -656,7 +713,7 @@ impl Scenario for IncScn {
                 );
                 if r.is_ok() {
                     cx.count("openflow:ok");
-                    cx.count("openflow:start_in_the_past");
+                    cx.count(if *ahead > 0 { "openflow:start_in_the_future" } else { "openflow:start_in_the_past" });
                     let received = bal(w, &h.reward, &h.incentive) - ib;
                     let id = g.next_flow_id;
                     g.next_flow_id += 1;
@@ -682,7 +739,7 @@ impl Scenario for IncScn {
         match a {
             IAct::Open { user, amount, dur, receiver } | IAct::Expand { user, amount, dur, receiver } => {
                 let is_open = matches!(a, IAct::Open { .. });
-                let amt = *amount as u128;
+                let amt = *amount as u128 * h.scale;
                 let funds = self.lp_funds(h, w, user, amt);
                 let ib = bal(w, &h.lp, &h.incentive);
                 let ub = bal(w, &h.lp, user);
@@ -730,7 +787,13 @@ impl Scenario for IncScn {
                     _ => 0,
                 };
                 let stated = if kind == "zero" { 0 } else { stated };
-                let funds = self.lp_funds(h, w, user, sent);
+                let mut funds = self.lp_funds(h, w, user, sent);
+                if kind == "addr_coin" {
+                    if let AssetInfo::Token { contract_addr } = &h.lp {
+                        w.mint_native(user, stated, contract_addr);
+                        funds = vec![coin(stated, contract_addr)];
+                    }
+                }
                 let ib = bal(w, &h.lp, &h.incentive);
                 // use a duration the user has no position in, if any
                 let dur = DURS.iter().find(|d| !g.open.contains_key(&(user.clone(), **d))).cloned().unwrap_or(DURS[0]);
@@ -751,7 +814,13 @@ impl Scenario for IncScn {
                         g.first_stake_epoch.entry(user.clone()).or_insert(e);
                         *g.open.entry((user.clone(), dur)).or_insert(0) += stated;
                     }
-                    Err(_) => {}
+                    Err(_) => {
+                        if kind == "addr_coin" {
+                            if let AssetInfo::Token { contract_addr } = &h.lp {
+                                let _ = w.exec_cosmos(user, cosmwasm_std::BankMsg::Burn { amount: vec![coin(stated, contract_addr)] }.into());
+                            }
+                        }
+                    }
                 }
                 if let AssetInfo::Token { contract_addr } = &h.lp {
                     set_allowance(w, contract_addr, user, &h.incentive, 0);
@@ -963,7 +1032,7 @@ impl Scenario for IncScn {
                 }
             }
             IAct::OpenFlow { creator, amount, funds, end_delta } => {
-                let declared = *amount as u128;
+                let declared = *amount as u128 * h.scale;
                 let same = h.fee == h.reward;
                 // what the creator actually provides
                 let (reward_sent, fee_sent): (u128, u128) = match (funds.as_str(), same) {
@@ -1039,7 +1108,7 @@ impl Scenario for IncScn {
                 }
             }
             IAct::ExpandFlow { id, amount, funds, by } => {
-                let amt = *amount as u128;
+                let amt = *amount as u128 * h.scale;
                 let sent = if funds == "short" { amt - 1 } else { amt };
                 let coins = match &h.reward {
                     AssetInfo::NativeToken { denom } => vec![coin(sent, denom)],
@@ -1152,6 +1221,25 @@ impl Scenario for IncScn {
         let c12 = self.property == "C12";
         let c13 = self.property == "C13";
         let flows = flows_of(w, h);
+        if c12 {
+            // the Flows query shows exactly the stored flows, each with its history cut to the documented window
+            // [start, start + 100]
+            let mut q = flows_query(w, h);
+            q.sort_by_key(|f| f.flow_id);
+            let mut st = flows_scan(w, h);
+            st.sort_by_key(|f| f.flow_id);
+            let same_ids = q.iter().map(|f| f.flow_id).collect::<Vec<_>>() == st.iter().map(|f| f.flow_id).collect::<Vec<_>>();
+            cx.check("flows_query.lists_the_stored_flows", same_ids, || format!("Flows query lists {:?} but the contract stores {:?}", q.iter().map(|f| f.flow_id).collect::<Vec<_>>(), st.iter().map(|f| f.flow_id).collect::<Vec<_>>()));
+            if same_ids {
+                for (qf, sf) in q.iter().zip(st.iter()) {
+                    let (lo, hi) = (sf.start_epoch, sf.start_epoch.saturating_add(100));
+                    let mut want = sf.clone();
+                    want.asset_history.retain(|k, _| *k >= lo && *k <= hi);
+                    want.emitted_tokens.retain(|k, _| *k >= lo && *k <= hi);
+                    cx.check("flows_query.shows_the_stored_flow_within_its_window", *qf == want, || format!("flow {}: the Flows query answers {:?} but the stored flow, cut to epochs {}..={}, is {:?}", sf.flow_id, qf, lo, hi, want));
+                }
+            }
+        }
         let mut everyone: Vec<String> = self.users.clone();
         everyone.push(MALLORY.to_string());
         if c11 {
